@@ -128,6 +128,9 @@ static void dump_type( const TypeDescriptor * t ) {
         fprintf( g_out, " struct=%s", aggr_struct( t ).c_str() );
         const TypeDescriptor * el = a->AggrElemTypeDescriptor();
         fprintf( g_out, " elem=%s", el ? lower( el->Name() ).c_str() : "?" );
+        // the same question put to the type itself (for 'TYPE l2 = l' the descriptor of l2, which has to look through the renaming)
+        const TypeDescriptor * el2 = t->AggrElemTypeDescriptor();
+        fprintf( g_out, " telem=%s", el2 ? lower( el2->Name() ).c_str() : "?" );
     }
     fputc( '\n', g_out );
 }
